@@ -258,7 +258,7 @@ func main() {
 		j.States += st.Executions
 		j.Transitions += st.Steps
 		j.Count("executions", st.Executions)
-	j.Count("pruned-executions", st.Pruned)
+		j.Count("pruned-executions", st.Pruned)
 		j.Count("pruned-executions", st.Pruned)
 		j.Count("exec|"+sc.Sink+"|"+sc.Renderer, st.Executions)
 		j.Count("steps|"+sc.Sink+"|"+sc.Renderer, st.Steps)
